@@ -71,13 +71,25 @@ package websocket
 //@   let off = 2 + ext + 4
 //@   ensures [queued] len(s.pendingFrames) == old(len(s.pendingFrames)) + 1 && s.pendingFrames[old(len(s.pendingFrames))] == f
 //@   ensures [order] forall j :: 0 <= j && j < old(len(s.pendingFrames)) ==> s.pendingFrames[j] == old(s.pendingFrames[j])
-//@   ensures [wire] wireFrame(s, f) && (*f)[0] == old((*f)[0]) && (*f)[1] == old((*f)[1]) && len(*f) == old(len(*f))
+//@   ensures [wire] wireFrame(s, f) && (*f)[0] == old((*f)[0]) && (*f)[1] == old((*f)[1]) && len(*f) == old(len(*f)) && ptr(*f) == old(ptr(*f))
 //@   // un-masking the queued payload with the key stored in front of it gives the payload handed in
 //@   ensures [unmask] s.role == RoleClient ==> (forall k :: 0 <= k && k < len(*f) - off ==>
 //@           (*f)[off + k] == old((*f)[off + k]) ^ (*f)[off - 4 + (k & 3)])
 //@   ensures [server-plain] s.role != RoleClient ==> (forall k :: 0 <= k && k < len(*f) ==> (*f)[k] == old((*f)[k]))
 //@   ensures [frame-only] unchanged_except(*f)
 //@   ensures [inv] qInv(s) && s.state == old(s.state)
+
+// Close codes travel big-endian in the first two payload bytes.
+//@ func EncodeCloseCode
+//@   prop C08
+//@   ensures [two-bytes] len(result) == 2 && fresh(result) && int(result[0])*256 + int(result[1]) == int(cc)
+//@   modifies nothing
+
+//@ func EncodeCloseFramePayload
+//@   prop C08
+//@   requires len(reason) <= 123
+//@   ensures [code-first] len(result) == 2 + len(reason) && fresh(result) && int(result[0])*256 + int(result[1]) == int(cc)
+//@   modifies nothing
 
 // prepareClose queues exactly one Close frame (FIN, opcode 8) carrying the given payload.
 //@ func (*Stream).prepareClose
@@ -90,6 +102,11 @@ package websocket
 //@   ensures [order] forall j :: 0 <= j && j < old(len(s.pendingFrames)) ==> s.pendingFrames[j] == old(s.pendingFrames[j])
 //@   ensures [inv] qInv(s) && s.state == old(s.state)
 //@   ensures [frame-only] unchanged_except(*s.pendingFrames[old(len(s.pendingFrames))])
+//@   // on the wire: payload XOR masking key for a client, payload itself for a server
+//@   ensures [payload-client] s.role == RoleClient ==> (forall k :: 0 <= k && k < len(payload) ==>
+//@           (*s.pendingFrames[old(len(s.pendingFrames))])[6 + k] == old(payload[k]) ^ (*s.pendingFrames[old(len(s.pendingFrames))])[2 + (k & 3)])
+//@   ensures [payload-server] s.role != RoleClient ==> (forall k :: 0 <= k && k < len(payload) ==>
+//@           (*s.pendingFrames[old(len(s.pendingFrames))])[2 + k] == old(payload[k]))
 
 //@ func fnparam:(*Stream).*.controlCallback
 //@   trusted
